@@ -117,6 +117,20 @@ func runC18(c *Ctx) {
 		}
 		fm := reFnLookup.FindStringSubmatch(rc.fn)
 		if fm == nil {
+			// a fallback consulted LAST: an alias table (read-only package-level map) indexed by the item's key
+			// part, reached only on the path where the per-call AND the global table missed — built-ins and
+			// registered functions of that name still win
+			if tab, item, ok := aliasLookup(p, rc.fn); ok {
+				local := "has(v.vc.validFn[valid.ParseValidNameKV(" + item + ")#0])"
+				global := "has(valid.validName2FnMap[valid.ParseValidNameKV(" + item + ")#0])"
+				lv, lok := pc[local]
+				gv, gok := pc[global]
+				if lok && gok && lv == 0 && gv == 0 {
+					fm = []string{rc.fn, "alias:" + tab, item}
+				}
+			}
+		}
+		if fm == nil {
 			a.bad = append(a.bad, at+": the function called does not come from the per-call or global rule table indexed by the item's key part: "+shorten(rc.fn, 120))
 		} else if fm[2] != rc.item {
 			a.bad = append(a.bad, at+": the function was looked up with the key of a different text than the item passed to it")
@@ -415,6 +429,18 @@ func runC16(c *Ctx) {
 				}
 			}
 			if missKey == "" {
+				continue
+			}
+			// an alias table that answers after the double miss: the name is not unknown on this pass
+			aliasHit := false
+			for k, v := range ps.PC {
+				if v == 1 && strings.HasPrefix(k, "has(valid.") && !strings.HasPrefix(k, "has(valid.validName2FnMap[valid.ParseValidNameKV(") {
+					if g := p.Global("valid", strings.TrimPrefix(strings.SplitN(k, "[", 2)[0], "has(valid.")); g != nil && readOnlyGlobalMap(p, g) {
+						aliasHit = true
+					}
+				}
+			}
+			if aliasHit {
 				continue
 			}
 			sawMiss = true
@@ -979,4 +1005,63 @@ func encodedForm(d string) string {
 		return fmt.Sprintf("%%%02X", d[0])
 	}
 	return "its %XX form"
+}
+
+// aliasLookup: fn is `T[key(item)]` or `validName2FnMap[T[key(item)]]` for a read-only package-level map T
+// of package valid other than the two rule tables (a constant alias / fallback table).
+func aliasLookup(p *Prog, fn string) (table, item string, ok bool) {
+	for _, re := range []*regexp.Regexp{
+		regexp.MustCompile(`^valid\.(\w+)\[valid\.ParseValidNameKV\((.*)\)#0\]$`),
+		regexp.MustCompile(`^valid\.validName2FnMap\[valid\.(\w+)\[valid\.ParseValidNameKV\((.*)\)#0\]\]$`),
+	} {
+		m := re.FindStringSubmatch(fn)
+		if m == nil || m[1] == "validName2FnMap" {
+			continue
+		}
+		g := p.Global("valid", m[1])
+		if g == nil || !readOnlyGlobalMap(p, g) {
+			continue
+		}
+		return m[1], m[2], true
+	}
+	return "", "", false
+}
+
+// readOnlyGlobalMap: a package-level map that is filled by the package initialiser only: outside init it
+// is looked up, ranged over or measured, never updated, deleted from, reassigned or handed to a call.
+func readOnlyGlobalMap(p *Prog, g *ssa.Global) bool {
+	if _, isMap := g.Type().(*types.Pointer).Elem().Underlying().(*types.Map); !isMap {
+		return false
+	}
+	for _, fn := range p.Funcs {
+		if fn.Name() == "init" && fn.Signature.Recv() == nil {
+			continue
+		}
+		for _, b := range fn.Blocks {
+			for _, ins := range b.Instrs {
+				for _, op := range ins.Operands(nil) {
+					if op == nil || *op != ssa.Value(g) {
+						continue
+					}
+					ld, ok := ins.(*ssa.UnOp)
+					if !ok || ld.Op != token.MUL {
+						return false // stored to, or its address taken
+					}
+					for _, r := range refs(ld) {
+						switch x := r.(type) {
+						case *ssa.Lookup, *ssa.Range:
+						case *ssa.Call:
+							if calleeName(&x.Call) != "builtin.len" {
+								return false
+							}
+						case *ssa.DebugRef:
+						default:
+							return false
+						}
+					}
+				}
+			}
+		}
+	}
+	return true
 }
